@@ -87,9 +87,17 @@ func collectAddressFilters(q interface {
 			if isPartialAddress(v) {
 				needSegments = true
 			}
-		default:
+		case []string:
 			// $in operator passes arrays — these are always exact addresses,
-			// not partial, so we skip them (no GIN index optimization possible).
+			// not partial, but they still select rows: collect them so a pushed
+			// lateral filter does not drop the accounts they name.
+			addresses = append(addresses, v...)
+		case []any:
+			for _, item := range v {
+				if address, ok := item.(string); ok {
+					addresses = append(addresses, address)
+				}
+			}
 		}
 		return false
 	})
